@@ -131,6 +131,10 @@ func (v *ScriptView) writeCreateSQLForAColumn(attrType *sysl.Type, tableName, at
 		path0 := typeRef.GetRef().Path[0]
 		path1 := typeRef.GetRef().Path[1]
 		datatype := visitedAttributes[path0+"."+path1]
+		if datatype == "" {
+			v.logger.Warnf("column %s.%s has no type: %s.%s is missing or is written after it (tables that refer to each other)",
+				tableName, attrName, path0, path1)
+		}
 		s = fmt.Sprintf("  %s %s,\n",
 			attrName, datatype)
 		fkName := strings.ToUpper(tableName + "_" + attrName + "_FK")
